@@ -228,6 +228,19 @@ def gen_geo_case(R):
     return {"ref": ref, "pts": pts}
 
 
+def gen_geo_seam_case(R):
+    """references within a couple of kilometres of the equator and / or the prime meridian (either side, and exactly on
+    them), targets on both sides: the seams where a signed quantity changes sign"""
+    near = lambda: R.choice([R.uniform(0.0005, 0.02), -R.uniform(0.0005, 0.02), 0.0, R.uniform(-0.004, 0.004)])   # noqa: E731
+    ref = (near() if R.random() < 0.8 else R.uniform(-60, 60), near() if R.random() < 0.6 else R.uniform(-179, 179),
+           R.choice([0.0, 100.0]))
+    pts = []
+    for _ in range(R.randint(3, 8)):
+        pts.append((ref[0] + R.choice([-1, 1]) * R.uniform(0.002, 0.03), ref[1] + R.choice([-1, 1]) * R.uniform(0.002, 0.03),
+                    R.choice([ref[2], 0.0, 50.0])))
+    return {"ref": ref, "pts": pts}
+
+
 def great_circle(a, b):
     la1, lo1, la2, lo2 = map(math.radians, (a[0], a[1], b[0], b[1]))
     h = math.sin((la2 - la1) / 2) ** 2 + math.cos(la1) * math.cos(la2) * math.sin((lo2 - lo1) / 2) ** 2
